@@ -128,7 +128,7 @@ def concretise(v, f, wd):
         return (["--output-format", v["fmt"]] if v["fmt"] != "default" else []) + list(v["valid"]), v["fmt"]
     if v["dev"] == "graph_spec_grid":
         return [v["name"]] + list(v["valid"]), default_fmt
-    if v["dev"] == "raw":
+    if v["dev"] in ("raw", "raw_help"):
         return [f["gd"] if t == "@gdfile" else t for t in v["valid"]], default_fmt
     if v["dev"] == "build_refusal":
         sel = v["fmt"]
@@ -272,7 +272,7 @@ def main(argv=None):
         # the corners of the grid (two or more zero arguments) always, a sample of the rest
         corners = [x for x in grid if list(x["v"]["valid"]).count("0") >= 2]
         others = [x for x in grid if list(x["v"]["valid"]).count("0") < 2]
-        raw = [x for x in rest if x["v"]["dev"] == "raw"]
+        raw = [x for x in rest if x["v"]["dev"] == "raw"] + [x for x in must if x["v"]["dev"] == "raw_help"]
         rest = [x for x in rest if x["v"]["dev"] != "raw"]
         keep = must[::2] + ck.rng.sample(rest, 800) + corners + ck.rng.sample(others, 150) + raw
         other = [x for x in vectors if x["v"]["tool"] in ("cnfshuffle", "kthlist2pebbling")]
